@@ -22,10 +22,15 @@ PID = 'C03'
 ACCESSOR_RE = re.compile(r'::(?:\w+::)*(Sts|Mts)<[^>]*>\s+(Provides|Requires)(MultiClient)?(\w+)\(')
 
 
-def mini_model(prov, req, inj, with_mc=False):
+def mini_model(prov, req, inj, with_mc=False, interleave=False):
     ports = [[n, ['I'], 'provides', False] for n in prov] + \
             [[n, ['I'], 'requires', False] for n in req] + \
             [[n, ['I'], 'requires', True] for n in inj]
+    if interleave:
+        # ports NOT grouped by direction: provides, requires, injected, provides, ...
+        groups = [[p for p in ports if p[2] == 'provides'], [p for p in ports if p[2] == 'requires' and not p[3]],
+                  [p for p in ports if p[3]]]
+        ports = [g[i] for i in range(max(map(len, groups)) if ports else 0) for g in groups if i < len(g)]
     events = [['Do', 'in', ['void'], []], ['Done', 'out', ['void'], []]]
     types = []
     if with_mc:
@@ -104,7 +109,7 @@ def judge(case):
             wp = ('REJECT', 'mc:not-a-provides-port')
         elif wp[0] == 'ACCEPT' and wp[1][mc] != 'MTS':
             wp = ('REJECT', 'mc:port-not-mts')
-    model = mini_model(prov, req, inj, bool(mc))
+    model = mini_model(prov, req, inj, bool(mc), bool(case.get('interleave')))
     verdict, detail, nfiles = lib_build(model, psel, rsel, mc, case.get('form'))
     desc = (f'ports provides={prov} requires={req} injected={inj}; provides(sts={psel[0]}, mts={psel[1]}) '
             f'requires(sts={rsel[0]}, mts={rsel[1]}) multi-client={mc} -> library {verdict} {detail}; '
@@ -264,6 +269,8 @@ def equal_selection_cases(thorough):
                     # REPRESENTATION: the names of the selections as instances of a str subclass with its own __str__
                     yield {'kind': 'e2e', 'prov': prov, 'req': req, 'inj': inj, 'psel': [sts, mts], 'rsel': [sts, mts],
                            'form': 'subclass'}
+                    yield {'kind': 'e2e', 'prov': prov, 'req': req, 'inj': inj, 'psel': [sts, mts], 'rsel': [sts, mts],
+                           'interleave': True}
 
 
 def class_cross_cases(thorough):
